@@ -5,6 +5,10 @@ import pyk2coq
 
 POINTS = [0.05, 0.2, 0.5, 0.8, 0.97]
 ARGS = [4.0, 2.5, 1.0, 0.5]
+# cells whose light classes pack their argument vectors in every way the code knows (sequence, dict with reg only, dict with reg and loc)
+RSL_CELLS = [dict(proc="NC", kind="FL", fns="ZM-VFNS", nfff=3, heavyness="light", Q2=30.0), dict(proc="CC", kind="FL", fns="ZM-VFNS", nfff=3, heavyness="light", Q2=30.0),
+             dict(proc="NC", kind="gL", fns="ZM-VFNS", nfff=3, heavyness="light", Q2=30.0), dict(proc="NC", kind="F2", fns="ZM-VFNS", nfff=3, heavyness="total", Q2=30.0),
+             dict(proc="CC", kind="F3", fns="FFNS", nfff=3, heavyness="charm", Q2=30.0)]
 
 
 def run_jit(chk, limit=None):
@@ -21,7 +25,7 @@ def run_jit(chk, limit=None):
         kernels = sorted(kernels[:limit], key=lambda k: (k["module"], k["name"]))
     os.makedirs(common.SCRATCH, exist_ok=True)
     spec = os.path.join(common.SCRATCH, "jit_spec_%d.json" % os.getpid())
-    json.dump(dict(kernels=kernels, points=POINTS, args=ARGS, special_points=[-1.0, -0.6, -0.2, 0.05, 0.3, 0.5, 0.55, 0.7, 0.85, 0.99, 1.0]), open(spec, "w"))
+    json.dump(dict(kernels=kernels, points=POINTS, args=ARGS, special_points=[-1.0, -0.6, -0.2, 0.05, 0.3, 0.5, 0.55, 0.7, 0.85, 0.99, 1.0], rsl_cells=RSL_CELLS), open(spec, "w"))
     res = {}
     for mode, env in (("py", dict(NUMBA_DISABLE_JIT="1")), ("jit", dict(NUMBA_DISABLE_JIT="0", NUMBA_BOUNDSCHECK="1"))):
         # a fresh numba cache: the on-disk cache does not notice changes in callees defined in other files
@@ -36,9 +40,9 @@ def run_jit(chk, limit=None):
     os.remove(spec)
     bad, worst = [], 0.0
     nspecial = 0
-    for key in sorted(k_ for k_ in res["py"] if k_.startswith("special")):
-        a, b = res["py"][key], res["jit"].get(key)
-        if isinstance(a, str) or isinstance(b, str) or b is None:
+    for key in sorted(k_ for k_ in set(res["py"]) | set(res["jit"]) if k_.startswith(("special", "rsl"))):
+        a, b = res["py"].get(key), res["jit"].get(key)
+        if isinstance(a, str) or isinstance(b, str) or b is None or a is None:
             if a != b:
                 bad.append(dict(kernel=key, python=a, jit=b))
             continue
@@ -74,5 +78,6 @@ def run_jit(chk, limit=None):
     chk.corr["jit_vs_interpreter"] = dict(cases=len(kernels) * len(POINTS) + nspecial, kernels=len(kernels), special_function_evaluations=nspecial, disagreements=len(bad), worst_rel=worst,
                                           distinct_nontrivial=len(kernels),
                                           rule="every translated njit kernel evaluated at %s with args %s by the interpreter (NUMBA_DISABLE_JIT=1) and by the compiled code "
-                                               "(NUMBA_BOUNDSCHECK=1) in separate processes; relative difference <= 1e-9; exceptions must coincide" % (POINTS, ARGS))
+                                               "(NUMBA_BOUNDSCHECK=1) in separate processes; relative difference <= 1e-9; exceptions must coincide; in addition the RSL objects that the light FL/gL/F2 and heavy CC "
+                                               "classes really build are called with the argument vectors the classes pack (dtype and length as packed), in both modes" % (POINTS, ARGS))
     return bad
